@@ -983,8 +983,9 @@ func (c *Conn) handleBdat(arg string) {
 		return
 	}
 
-	// ParseUint instead of Atoi so we will not accept negative values.
-	size, err := strconv.ParseUint(args[0], 10, 32)
+	// ParseUint instead of Atoi so we will not accept negative values. The
+	// size has to fit an int64 (io.LimitReader, bytesReceived).
+	size, err := strconv.ParseUint(args[0], 10, 63)
 	if err != nil {
 		c.writeResponse(501, EnhancedCode{5, 5, 4}, "Malformed size argument")
 		return
